@@ -291,7 +291,7 @@ class Run:
         return r, path, n, bad
 
     def trace_leg(self, name, emit_args, spec="TV_Machine", cfg="TV_Machine.cfg", verdict=None,
-                  workers=8, timeout=3000, heap="12g", path=None):
+                  workers=8, timeout=3000, heap="12g", path=None, expect_all=True):
         """TV leg over runs: each `New` event starts a behaviour; TLC advances the
         specification along the recorded events.  A rejected event carries `why`, the
         names of the failed checks.  Names in `verdict` (None = all) decide the property;
@@ -352,7 +352,11 @@ class Run:
                 elif '"ev":"Step"' in line[:400]:
                     nsteps += 1
         consumed = r.distinct
-        if consumed < n and not rejected:
+        with open(path) as f:
+            first = f.readline()
+        if '"ev":"Os"' in first:
+            n -= 1
+        if expect_all and consumed < n and not rejected:
             self.violations.append({"leg": name, "what": "only %d of %d recorded events were consumed by %s" % (consumed, n, spec),
                                     "replay": {"kind": "trace", "leg": name, "emit": emit_args, "spec": spec, "cfg": cfg,
                                                "line": consumed + 1, "record": None, "seed": self.seed, "tier": self.tier}})
@@ -588,6 +592,69 @@ def c28(run):
              "the access set of the reference model (READ/WRITTEN/MODIFIED per address) and ObsProp is evaluated on "
              "the logged marks against the full memory diff; host accesses through untracked contexts must leave it unchanged",
         level_note="MODIFIED is compared as the code defines it (value or mask changed); ObsProp states only what the property does")
+
+
+PAIRV = ["header", "flags", "length", "differs", "shape", "strict-changed-step",
+         "strict-error-on-initialized-machine", "host-differs"]
+
+
+@check("C14")
+def c14(run):
+    # the relation itself, on lockstep pairs of real runs
+    r, path, n, rej = run.trace_leg("pairs", ["machine", "kind=strictpairs"], spec="TV_Pairs", cfg="TV_Pairs.cfg",
+                                    verdict=PAIRV, expect_all=False)
+    run.trace_leg("pairs_full", ["machine", "kind=strictfull"], spec="TV_Pairs", cfg="TV_Pairs.cfg",
+                  verdict=PAIRV, expect_all=False)
+    # both runs of each pair follow the specification (conformance = drift for this property),
+    # and the specification-level relation StrictRel holds from every validated state
+    run.trace_leg("pairs_conf", ["machine", "kind=strictpairs"], verdict=["strictrel", "panic"], path=path)
+    run.trace_leg("rand_rel", ["machine", "kind=rand", "strict=50"], verdict=["strictrel", "panic"])
+    return run.finish(
+        rule="pairs of real runs driven in lockstep from identical states, strict off (A) and on (B): programs with "
+             "jumps into OS memory and I/O pages, .blkw regions, stack-relative accesses, timers, keyboard input; "
+             "TLC checks on every logged step that B fails with a strict error or equals A in outcome and full "
+             "projection; on fully initialized machines B never reports a strict error; additionally the "
+             "specification-level relation StrictRel(st) (both StepF variants evaluated from the same state) is "
+             "checked at every validated state",
+        level_note="the pair relation uses logged data only; predicting which steps strict mode rejects is conformance (drift)")
+
+
+@check("C29")
+def c29(run):
+    run.trace_leg("load", ["machine", "kind=load"], verdict=CONF + ["newok"])
+    return run.finish(
+        rule="new simulators under Known/Seeded/Unseeded initialization (header = full memory as segments, checked by "
+             "NewOK against the OS object image, the zeroed I/O page and the fill rule), then loads of generated "
+             "objects (blocks inside the OS area, ending exactly at xFE00, .blkw regions, several blocks), repeated "
+             "loads, loads after execution, objects with unresolved externals; after each load the diff of all "
+             "65 536 words, registers and PC must equal Machine!LoadBlocks",
+        level_note="the OS image is the projection of _os_obj_file() (its assembly is covered by C01)")
+
+
+@check("C30")
+def c30(run):
+    run.trace_leg("reset", ["machine", "kind=reset"], verdict=CONF + ["newok", "kept"])
+    return run.finish(
+        rule="random histories (loads, steps, register/memory pokes, flag changes, breakpoints, timer and register "
+             "devices, internal-register mappings, keyboard IE) followed by reset, twice per run, for Known and Seeded "
+             "strategies; TLC requires the post-reset projection (incl. full memory diff) to equal ResetTo = the "
+             "run's fresh header with flags/MCR/mappings/devices kept and devices io_reset; probes through the "
+             "mappings after reset; MCR Arc identity and breakpoint count logged",
+        level_note="Unseeded strategy excluded (the property restricts itself to deterministic strategies)")
+
+
+@check("C31")
+def c31(run):
+    r, path, n, rej = run.trace_leg("repro", ["machine", "kind=repro"], spec="TV_Pairs", cfg="TV_Pairs.cfg",
+                                    verdict=PAIRV, expect_all=False)
+    run.trace_leg("repro_conf", ["machine", "kind=repro"], verdict=["newok", "panic"], path=path)
+    return run.finish(
+        rule="two independent real runs per configuration (Known / Seeded strategy, seeded timers, keyboard input, "
+             "harness interrupts): TLC requires the two event sequences to be identical field by field (header with "
+             "the full initial memory, every step's registers, PC, PSR, memory diff, interrupts taken, output); "
+             "NewOK checks the Known strategy initializes every register and every word outside the OS image and "
+             "the I/O page to the given value, uninitialized",
+        level_note="both runs are also validated stepwise against Machine (drift only here)")
 
 
 # --------------------------------------------------------------------------
